@@ -120,13 +120,22 @@ func TestPropSignedRoundTrip(t *testing.T) {
 			}
 			verifyAll := func(how string, q *pipeline.Pipeline, text []byte) {
 				n := 0
+				// the verification env is built once per re-parsed pipeline and reused for every step,
+				// the way a job run would hold it
+				shared := venvOf(q)
+				sharedCopy := fmt.Sprint(shared)
+				defer func() {
+					if fmt.Sprint(shared) != sharedCopy {
+						t.Fatalf("[%s] Verify modified the caller's verification env: %s -> %v", how, sharedCopy, shared)
+					}
+				}()
 				walk(q.Steps, 0, func(cs *pipeline.CommandStep, depth int) {
 					n++
 					if cs.Signature == nil {
 						t.Fatalf("[%s] command step %q lost its signature\n%s", how, cs.Command, text)
 					}
 					sf := &signature.CommandStepWithInvariants{CommandStep: *cs, RepositoryURL: repo}
-					if err := signature.Verify(ctx, cs.Signature, kp.Pub, sf, signature.WithEnv(venvOf(q))); err != nil {
+					if err := signature.Verify(ctx, cs.Signature, kp.Pub, sf, signature.WithEnv(shared)); err != nil {
 						t.Fatalf("[%s, key %s, rep %d] signature no longer verifies: %v\nstep: %s\n---- marshalled ----\n%s\n---- document ----\n%s", how, kp.Kind, rep, err, gt.Show(canon.Step(cs, canon.Raw)), text, d.YAML)
 					}
 				})
